@@ -451,33 +451,93 @@ def index_guard(ctx):
         raise AnalysisError('C18.5: start expression not affine: %s' % e)
     ctx.ob(pos == (S, O), u, 'index i >= 0 starts at op position %d*i + %d: %s' % (S, O, norm(ife.body)))
     ctx.ob(neg_i == (S, 0) and neg_n == (S, O), u, 'index i < 0 starts at %d*i + len(ops): %s' % (S, norm(ife.orelse)))
-    # guard: disjunction of comparisons on start
-    g = guards[0].test
-    terms = g.values if isinstance(g, ast.BoolOp) and isinstance(g.op, ast.Or) else [g]
-    upper = lower = None
-    for t in terms:
-        if not (isinstance(t, ast.Compare) and is_name(t.left, sv) and len(t.ops) == 1):
+    # guard: a disjunction of linear comparisons over the index i and the path length n, whatever
+    # they are written in (the scaled start, len(ops), len(self), i itself; ``not (a < i < b)``)
+    selfn = u.params[0]
+
+    def lin(e, region):
+        """(a, b, c) with e == a*i + b*n + c in the given region ('pos': i >= 0, 'neg': i < 0)"""
+        if isinstance(e, ast.Constant) and isinstance(e.value, int) and not isinstance(e.value, bool):
+            return (0, 0, e.value)
+        if is_name(e, idx):
+            return (1, 0, 0)
+        if is_name(e, sv):
+            body = ife.body if region == 'pos' else ife.orelse
+            return lin(body, region)
+        if isinstance(e, ast.Call) and is_name(e.func, 'len') and len(e.args) == 1:
+            if is_name(e.args[0], opsv):
+                return (0, S, O)
+            if is_name(e.args[0], selfn):
+                return (0, 1, 0)
+        if isinstance(e, ast.UnaryOp) and isinstance(e.op, ast.USub):
+            x = lin(e.operand, region)
+            return (-x[0], -x[1], -x[2])
+        if isinstance(e, ast.BinOp) and isinstance(e.op, (ast.Add, ast.Sub)):
+            x, y = lin(e.left, region), lin(e.right, region)
+            sgn = 1 if isinstance(e.op, ast.Add) else -1
+            return (x[0] + sgn * y[0], x[1] + sgn * y[1], x[2] + sgn * y[2])
+        if isinstance(e, ast.BinOp) and isinstance(e.op, ast.Mult):
+            x, y = lin(e.left, region), lin(e.right, region)
+            if x[0] == 0 and x[1] == 0:
+                return (x[2] * y[0], x[2] * y[1], x[2] * y[2])
+            if y[0] == 0 and y[1] == 0:
+                return (y[2] * x[0], y[2] * x[1], y[2] * x[2])
+        raise NotAffine(src(e))
+
+    NEG = {ast.Lt: ast.GtE, ast.LtE: ast.Gt, ast.Gt: ast.LtE, ast.GtE: ast.Lt}
+
+    def atoms_of(t, negated=False):
+        """the guard as a disjunction of (op, left, right)"""
+        if isinstance(t, ast.UnaryOp) and isinstance(t.op, ast.Not):
+            return atoms_of(t.operand, not negated)
+        if isinstance(t, ast.BoolOp):
+            if isinstance(t.op, ast.Or) != negated:        # Or, or a negated And: a disjunction
+                return [x for v in t.values for x in atoms_of(v, negated)]
             raise AnalysisError('C18.5: unsupported guard term %s' % src(t))
-        rhs = sub_len(t.comparators[0])
-        has_len = any(isinstance(x, ast.Name) and x.id == '__L__' for x in ast.walk(rhs))
-        try:
-            if has_len:
-                r = linear(rhs, {'__L__': (S, O)})         # in n
-                upper = _threshold(t.ops[0], (S, O), r)       # start = S*i + O for i >= 0
-            else:
-                r = linear(rhs, {})
-                # start = S*i + S*n + O for i < 0 : S*i + (S*n + O) OP c  <=>  S*i OP -S*n + (c - O)
-                lower = _threshold(t.ops[0], (S, O), (S * -1 * -1, r[1]))  # placeholder, refined below
-                # refine: i <= -n + k
-                diff = r[1] - O
-                if isinstance(t.ops[0], ast.Lt):
-                    lower = ('le', math.ceil(diff / S) - 1)
-                elif isinstance(t.ops[0], ast.LtE):
-                    lower = ('le', math.floor(diff / S))
+        if isinstance(t, ast.Compare) and all(type(o) in NEG for o in t.ops):
+            parts = []
+            left = t.left
+            for o, r in zip(t.ops, t.comparators):
+                parts.append((NEG[type(o)] if negated else type(o), left, r))
+                left = r
+            if len(parts) > 1 and not negated:
+                raise AnalysisError('C18.5: unsupported guard term %s' % src(t))    # a conjunction
+            return parts
+        raise AnalysisError('C18.5: unsupported guard term %s' % src(t))
+    g = guards[0].test
+    upper = lower = None
+    try:
+        for region in ('pos', 'neg'):
+            for op, L_, R_ in atoms_of(g):
+                x, y = lin(L_, region), lin(R_, region)
+                d = (x[0] - y[0], x[1] - y[1], x[2] - y[2])
+                # as  a*i + b*n + c >= 0  over the integers
+                if op is ast.GtE:
+                    a_, b_, c_ = d
+                elif op is ast.Gt:
+                    a_, b_, c_ = d[0], d[1], d[2] - 1
+                elif op is ast.LtE:
+                    a_, b_, c_ = -d[0], -d[1], -d[2]
                 else:
-                    lower = ('other', None)
-        except NotAffine as e:
-            raise AnalysisError('C18.5: guard not affine: %s' % e)
+                    a_, b_, c_ = -d[0], -d[1], -d[2] - 1
+                if region == 'pos':
+                    if a_ > 0 and b_ == -a_:
+                        k = math.ceil(-c_ / a_)
+                        upper = ('ge', k if upper is None else min(k, upper[1]))
+                    elif a_ <= 0 and b_ <= 0 and c_ <= 0:
+                        pass        # never true for i >= 0, n >= 0 (or only at i = n = 0, where i >= n holds anyway)
+                    else:
+                        raise AnalysisError('C18.5: unsupported guard term (%d*i + %d*n + %d >= 0 for i >= 0)' % (a_, b_, c_))
+                else:
+                    if a_ < 0 and b_ == a_:
+                        k = math.floor(c_ / -a_)
+                        lower = ('le', k if lower is None else max(k, lower[1]))
+                    elif a_ >= 0 and b_ <= 0 and c_ <= 0 and (a_ > 0 or c_ < 0 or b_ < 0 and False):
+                        pass        # never true for i <= -1, n >= 0
+                    else:
+                        raise AnalysisError('C18.5: unsupported guard term (%d*i + %d*n + %d >= 0 for i < 0)' % (a_, b_, c_))
+    except NotAffine as e:
+        raise AnalysisError('C18.5: guard not affine: %s' % e)
     ok = upper == ('ge', 0)
     ctx.ob(ok, u, 'the guard rejects exactly i >= len(path) for non-negative i: %s' % norm(g),
            '' if ok else 'with len(ops) = %d*n + %d the guard rejects i >= n + %s; index n (one past the end) is accepted and '
